@@ -23,12 +23,18 @@ impl std::fmt::Display for Verdict {
 struct AnyValidator {
     answers: [bool; 3],
     n: Cell<usize>,
+    refused: Cell<bool>,
 }
 impl AnyValidator {
     fn next(&self) -> Result<(), Verdict> {
         let i = self.n.get();
         self.n.set(i + 1);
-        if i < 3 && self.answers[i] { Ok(()) } else { Err(Verdict) }
+        if i < 3 && self.answers[i] {
+            Ok(())
+        } else {
+            self.refused.set(true);
+            Err(Verdict)
+        }
     }
 }
 impl AdvanceValidator for &AnyValidator {
@@ -58,7 +64,7 @@ fn in_frame(b: &[u8], j: usize, inf: usize, hf: usize) -> bool {
 fn ingress_atomic<const N: usize>() {
     let j: usize = kani::any();
     let internal: bool = kani::any();
-    let v = AnyValidator { answers: kani::any(), n: Cell::new(0) };
+    let v = AnyValidator { answers: kani::any(), n: Cell::new(0), refused: Cell::new(false) };
     let mut buf: [u8; N] = kani::any();
     let orig = buf;
     let Ok((p, _)) = StandardPathView::try_from_mut_slice(&mut buf[..]) else { return };
@@ -81,6 +87,7 @@ fn ingress_atomic<const N: usize>() {
                 IngressValidateResult::ValidationFailed(o, _) => (o, true),
             };
             kani::cover!(failed, "validation failure reported");
+            assert!(failed == v.refused.get(), "a verdict of the validator was dropped: refused hop reported as validated (or the reverse)");
             assert!(hf1 == hf0 || hf1 == hf0 + 1, "hop pointer moved backwards or jumped");
             assert!(inf1 == inf0 || inf1 == inf0 + 1, "segment pointer moved backwards or jumped");
             assert!((inf1 == inf0 + 1) == (hf1 == hf0 + 1), "segment pointer and hop pointer out of step at ingress");
@@ -118,7 +125,7 @@ fn c11_ingress_atomic_h9() {
 
 fn egress_atomic<const N: usize>() {
     let j: usize = kani::any();
-    let v = AnyValidator { answers: kani::any(), n: Cell::new(0) };
+    let v = AnyValidator { answers: kani::any(), n: Cell::new(0), refused: Cell::new(false) };
     let mut buf: [u8; N] = kani::any();
     let orig = buf;
     let Ok((p, _)) = StandardPathView::try_from_mut_slice(&mut buf[..]) else { return };
@@ -135,8 +142,10 @@ fn egress_atomic<const N: usize>() {
             kani::cover!(hops > 0, "advance fails on a non-empty path");
             assert!(buf[j] == orig[j], "failed egress advance changed the path bytes");
         }
-        Ok(_) => {
+        Ok(res) => {
             kani::cover!(true, "egress advance succeeds");
+            let failed = matches!(res, EgressValidateResult::ValidationFailed(..));
+            assert!(failed == v.refused.get(), "a verdict of the validator was dropped at egress");
             assert!(hf1 == hf0 + 1 && inf1 == inf0, "egress advance must move the hop pointer by exactly one");
             assert!(hf1 < hops, "hop pointer left the path");
             if !in_frame(&orig, j, inf0 as usize, hf0 as usize) {
